@@ -498,6 +498,16 @@ def prop3_specs(tier):
                     if base_opt == pc[1] or base_opt == pc[-1]:
                         for inv in ([classes[0][0]], [classes[-1][0]], [classes[0][0], classes[-1][0]]):
                             out.append({"family": "prop3", "shape": shape, "props": props, "inv": inv})
+    # the MIDDLE class of a chain extends the inherited property with a setter of its own (and declares the first invariants of the
+    # ancestry, or none), the last class re-defines the whole property: the contracts of the middle setter are inherited
+    classes = SHAPES["chain3"]
+    for base_opt in (pc[1], pc[-1]):
+        for sopt in opts:
+            for last_opt in (pc[1], pc[-1]):
+                props = [base_opt, {"ext_setter": list(sopt)}, last_opt]
+                out.append({"family": "prop3", "shape": "chain3", "props": props})
+                for inv in (["A"], ["B"], ["A", "B"], ["C"]):
+                    out.append({"family": "prop3", "shape": "chain3", "props": props, "inv": inv})
     # several bases: the last class extends the property of its FIRST base with a setter of its own; the getter and the deleter
     # stay the very accessors of that base, whose contracts (and those of the other base) must stay as they are
     for shape in ("two_bases", "two_bases_rev"):
